@@ -3,6 +3,6 @@ CONSTANTS
   Hash <- SHA1
   ReadKinds = {"UnexpectedEof", "ConnectionReset"}
   WriteKinds = {"BrokenPipe", "WriteZero"}
-  IntrChoices = {0, 2}
+  IntrChoices = {0, 1, 2}
 INVARIANTS ReadFacts WriteFacts EmitInv
 CHECK_DEADLOCK FALSE
